@@ -422,3 +422,12 @@ def rule_no_use_after_move(ctx, rule, scope, what, minimum=1):
     ctx.need(rule, "functions scanned for use after move", nf, minimum)
     if not hits:
         ctx.ok(rule, "-", "no-use-after-move:scanned", "%d function(s)" % nf, "-")
+
+
+_STD_LOOKUPS = ("at", "begin", "end", "rbegin", "rend", "find", "front", "back", "data", "lower_bound", "upper_bound", "equal_range", "get")
+
+
+def std_lookup(n):
+    """the non-const overload of a standard element accessor: hands out a position / reference and changes nothing by itself"""
+    from sa.ir import short as _short
+    return isinstance(n, dict) and n.get("k") == "call" and (n.get("name") or "").startswith("std::") and _short(n.get("name") or "") in _STD_LOOKUPS
